@@ -119,6 +119,51 @@ Theorem flow_verdict_iff : forall kf kfl mark s,
 Proof. exact flow_verdict_iff_proof. Qed.
 Print Assumptions flow_verdict_iff.
 
+(* ---- peer feedback of the in-process reference server (client mode) ---- *)
+(* A line the reference server prints about a case of the batch is recognised by the
+   runner's stderr reader as feedback for that case (names do not contain ": "). *)
+Theorem feedback_line_recognised : forall names n msg,
+  has_sep n = false -> In n names -> read_line names (fb_line n msg) = Some n.
+Proof. exact feedback_line_recognised_proof. Qed.
+Print Assumptions feedback_line_recognised.
+
+(* What reaches testResults as peer feedback: exactly the cases of batches run against the
+   reference server about whose request that server printed something - the feedback
+   printer stands on the writer whose other end the runner reads. *)
+Theorem peer_feedback_iff : forall ps n,
+  (forall m, In m (pscen_names ps) -> has_sep m = false) ->
+  (In n (peer_feedback ps) <->
+   exists b c, In b ps /\ pb_reference b = true /\ In c (pb_cases b) /\ pc_name c = n /\
+               pc_msgs c <> []).
+Proof. exact peer_feedback_iff_proof. Qed.
+Print Assumptions peer_feedback_iff.
+
+(* A client-mode run: the verdict is true exactly when the client's own result was nil and
+   every case met its expectation given its reply AND whether the server complained. *)
+Theorem peer_verdict_iff : forall kf kfl mark ps e,
+  (forall n, marks_agree (kf n) (kfl n) (mark n)) ->
+  NoDup (pscen_names ps) ->
+  (peer_verdict kf kfl ps e = true <->
+   e = false /\
+   forall n w, In (n, w) (scen_went (strip ps e)) ->
+     met (mark n) (went_fate w) (mem_bytes n (peer_feedback ps)) = true).
+Proof. intros kf kfl mark ps e M ND. exact (peer_verdict_iff_proof kf kfl mark M ps e ND). Qed.
+Print Assumptions peer_verdict_iff.
+
+(* The reference server saw something wrong with the request of an unmarked case whose
+   reported result matches the expectation: the case is named FAILED and the run fails. *)
+Theorem server_feedback_fails_run : forall kf kfl ps e b pc,
+  NoDup (pscen_names ps) ->
+  (forall m, In m (pscen_names ps) -> has_sep m = false) ->
+  In b ps -> pb_reference b = true -> In pc (pb_cases b) ->
+  rc_reply (pc_rc pc) = RPass -> pc_msgs pc <> [] ->
+  kf (pc_name pc) = false -> kfl (pc_name pc) = false ->
+  In (pc_name pc) (r_failed_names (report (peer_cfg kf kfl ps)
+                                     (run (peer_cfg kf kfl ps) (peer_ops ps e)))) /\
+  peer_verdict kf kfl ps e = false.
+Proof. intros kf kfl ps e b pc ND. exact (server_feedback_fails_run_proof kf kfl ps e ND b pc). Qed.
+Print Assumptions server_feedback_fails_run.
+
 (* ---- non-vacuity: hypotheses are inhabited, both sides of the iffs occur ---- *)
 Definition a := bs "S/a".
 Definition b := bs "S/b".
@@ -202,4 +247,25 @@ Definition s_ok : scen :=
 Example ex_flow_ok : scen_verdict (marks [b]) (marks [d]) s_ok = true.
 Proof. vm_compute. reflexivity. Qed.
 Example ex_flow_exit_status : scen_verdict (marks [b]) (marks [d]) (mkSc (s_batches s_ok) None true) = false.
+Proof. vm_compute. reflexivity. Qed.
+
+(* client mode: the client reports the expected result for `a` but the reference server
+   did not like its request; for `d` the same happens against the gRPC reference server,
+   which has no feedback channel *)
+Definition ps_fb : list pbatch :=
+  [mkPB true [mkPC (mkRC a RPass) [bs "expected codec proto; instead got json"]];
+   mkPB false [mkPC (mkRC d RPass) [bs "x"]]].
+Example ex_peer_feedback : peer_feedback ps_fb = [a].
+Proof. vm_compute. reflexivity. Qed.
+Example ex_peer_fails : peer_verdict (marks []) (marks []) ps_fb false = false.
+Proof. vm_compute. reflexivity. Qed.
+Example ex_peer_named :
+  r_failed_names (report (peer_cfg (marks []) (marks []) ps_fb)
+                    (run (peer_cfg (marks []) (marks []) ps_fb) (peer_ops ps_fb false))) = [a].
+Proof. vm_compute. reflexivity. Qed.
+Example ex_peer_ok :
+  peer_verdict (marks []) (marks []) [mkPB true [mkPC (mkRC a RPass) []]; mkPB false [mkPC (mkRC d RPass) [bs "x"]]] false = true.
+Proof. vm_compute. reflexivity. Qed.
+(* a line that is not about a case of the batch is not feedback *)
+Example ex_other_line : read_line [a] (bs "listening: on port 1") = None.
 Proof. vm_compute. reflexivity. Qed.
